@@ -57,6 +57,35 @@ def tokenizeAux (next : Cur → Tok × Cur) : Nat → Cur → List Tok
 def tokenizeWith (next : Cur → Tok × Cur) (input : List Char) : List Tok :=
   tokenizeAux next (input.length + 1) ⟨input, 0⟩
 
+/-! ### shared by the GraphQL and Gremlin lexers (`Peekable<Chars>`; `w` = what `advance` adds to
+`position` per character: `len_utf8` in GraphQL, `1` in Gremlin) -/
+
+/-- `while let Some(c) = peek() { if p(c) { advance() } else { break } }` -/
+def skipWhileW (w : Char → Nat) (p : Char → Bool) : List Char → Nat → Cur
+  | [], n => ⟨[], n⟩
+  | ch :: r, n => if p ch then skipWhileW w p r (n + w ch) else ⟨ch :: r, n⟩
+
+/-- the loop of `read_number` (identical in both lexers); `isF` = `is_float`, `hasE` = `value`
+already contains `e`/`E`; result = (`is_float`, cursor) -/
+def readNum (w : Char → Nat) (isF hasE : Bool) : List Char → Nat → Bool × Cur
+  | [], n => (isF, ⟨[], n⟩)
+  | ch :: r, n =>
+    if isDigit ch then readNum w isF hasE r (n + w ch)
+    else if ch == '.' && !isF then readNum w true hasE r (n + w ch)
+    else if (ch == 'e' || ch == 'E') && !hasE then
+      match r with
+      | [] => (true, ⟨[], n + w ch⟩)
+      | s :: r' =>
+        if s == '+' || s == '-' then readNum w true true r' (n + w ch + w s)
+        else readNum w true true (s :: r') (n + w ch)
+    else (isF, ⟨ch :: r, n⟩)
+
+/-- `advance()` of a `Peekable<Chars>` lexer: nothing at end of input -/
+def advW (w : Char → Nat) (c : Cur) : Cur :=
+  match c.rest with
+  | [] => c
+  | ch :: r => ⟨r, c.pos + w ch⟩
+
 /-! ### the verdict printed by the `lex2 <lang>.ok` lines: a decidable check of the four statements
 on one concrete token list (`bounds` = the list of legal offsets of the input) -/
 
